@@ -34,6 +34,14 @@ CHECKS = {
         "only by the shape rule; expat/lxml internals and running time are not decided.",
         technique="static analysis: interprocedural exception-escape (may-raise) fixpoint over a class-hierarchy call graph, CFG dominance for shape guards",
     ),
+    "C06": dict(
+        text="Static discharge of necessary conditions of exact date/time handling: validate-before-construct on all CFG paths of every "
+        "from_string; integer kind of the timeline comparison key (three-point numeric lattice); scanner directive coverage and unpack arity; "
+        "duration regex group agreement (regex AST); argument-name agreement of calendar components; range tables equal to the specification.",
+        design_ref="DESIGN.md section 4 C06",
+        note=_STATIC_NOTE + " Not decided: that every XSD-valid lexical form parses to the right components and prints back (value-level).",
+        technique="static analysis: CFG must-pass-through, abstract numeric-kind inference, table/arity extraction, regex AST inspection, spec-table equality",
+    ),
 }
 
 NOT_APPLICABLE = [
